@@ -54,6 +54,7 @@ FieldPool ==
       f_anyv  |-> F("Anyv", "anyv", <<"av">>, "plain", "any"),
       f_sub   |-> F("Sub", "sub", <<>>, "plain", "struct:sub"),
       f_psub  |-> F("PSub", "psub", <<"ps">>, "plain", "ptr:sub"),
+      f_subs  |-> F("Subs", "subs", <<>>, "plain", "slice_struct:sub"),
       f_hid   |-> F("Hidden", "hidden", <<>>, "skip", "string"),
       f_ratio |-> F("Ratio", "ratio", <<>>, "plain", "float"),
       i_map   |-> F("Rest", "", <<>>, "inline", "inline_map"),
@@ -90,7 +91,7 @@ RECURSIVE Expect(_, _, _), ExpectValue(_, _, _)
 ExpectValue(type, v, cur) ==
     CASE type \in StructTypes -> Expect(StructOf(type), AsDoc(v), cur)
       [] type = "ptr:sub" -> Expect(Structs.sub, AsDoc(v), IF cur = Null THEN ZeroStruct(Structs.sub) ELSE cur)
-      [] type = "slice_string" -> v
+      [] type = "slice_struct:sub" -> [t |-> "q", e |-> [i \in 1..Len(v.e) |-> Expect(Structs.sub, AsDoc(v.e[i]), ZeroStruct(Structs.sub))]]   \* every element starts from zero
       [] OTHER -> v
 \* desc: descriptor, doc: document, dst: the destination struct's current value
 Expect(desc, doc, dst) ==
@@ -117,6 +118,7 @@ RECURSIVE DecodeImpl(_, _, _), FieldLoop(_, _, _, _, _, _), ImplValue(_, _, _)
 ImplValue(type, v, cur) ==
     CASE type \in StructTypes -> DecodeImpl(StructOf(type), AsDoc(v), cur)
       [] type = "ptr:sub" -> DecodeImpl(Structs.sub, AsDoc(v), IF cur = Null THEN ZeroStruct(Structs.sub) ELSE cur)
+      [] type = "slice_struct:sub" -> [t |-> "q", e |-> [i \in 1..Len(v.e) |-> DecodeImpl(Structs.sub, AsDoc(v.e[i]), ZeroStruct(Structs.sub))]]   \* x := reflect.New(etype) per element
       [] type = "slice_any" -> (IF v = EmptySeq /\ cur = Null /\ ~FixEmptySliceAny THEN Null ELSE v)    \* append(nil, empty...) is nil
       [] OTHER -> v
 \* loop over the fields: acc = pairs decided so far, outline = keys matched to fields
